@@ -1167,3 +1167,103 @@ Proof.
   - exfalso. destruct (ti_mp _ _ TI _ _ _ O1) as (_ & _ & _ & en & _ & _ & _ & Hn). apply Hn. rewrite V1. apply (LEAD to2 m2 y' O2 P2).
   - subst. apply (prepare_once_per_view c x _ _ _ _ _ _ TI O1 O2). congruence.
 Qed.
+
+(* ---- the committed block and the decision record move together ---- *)
+Definition dneutral (x x' : tc) : Prop := D x' = D x /\ tc_commit x' = tc_commit x.
+Definition dstep (x x' : tc) : Prop :=
+  dneutral x x' \/ (exists b v e, tc_commit x' = Some b /\ D x' = (v, r_hash (pe_ref e)) :: D x /\ get_pp (tc_t x') v = Some e /\ pe_blk e = Some b).
+Lemma dneutral_refl x : dneutral x x. Proof. split; reflexivity. Qed.
+Lemma dneutral_trans a b d : dneutral a b -> dneutral b d -> dneutral a d.
+Proof. intros [A1 A2] [B1 B2]. split; congruence. Qed.
+Lemma dneutral_then_dstep a b d : dneutral a b -> dstep b d -> dstep a d.
+Proof.
+  intros [A1 A2] [[B1 B2]|(bb & v & e & C1 & C2 & C3 & C4)]; [left; split; congruence|].
+  right. exists bb, v, e. repeat split; congruence.
+Qed.
+
+Section DStep.
+Variable c : ncfg. Variable wm : option hv. Variable shut : bool.
+Ltac dn_tac :=
+  unfold dneutral, D;
+  repeat match goal with
+  | |- context [if ?b then _ else _] => destruct b
+  | |- context [match ?b with Some _ => _ | None => _ end] => destruct b
+  | |- context [match ?b with (_, _) => _ end] => destruct b
+  | |- context [match ?b with [] => _ | _ :: _ => _ end] => destruct b
+  end;
+  cbn [tc_commit tc_t tc_out tc_v tc_emit tc_set_t tc_set_v tc_bump send_all flat_map decided_of app]; split; reflexivity.
+
+Lemma check_committed_dstep x v h : dstep x (check_committed c wm shut x v h).
+Proof.
+  unfold check_committed. destruct (t_committed (tc_t x)); [left; apply dneutral_refl|].
+  destruct (is_preprepared (tc_t x) v h) as [e|] eqn:Ep; [|left; apply dneutral_refl].
+  destruct (is_preprepared_some _ _ _ _ Ep) as (G1 & G2 & b & Gb).
+  destruct (negb _); [left; apply dneutral_refl|]. destruct (negb _); [left; apply dneutral_refl|].
+  rewrite Gb. right. exists b, v, e. unfold D. destruct (memN _ _);
+    cbn [tc_committed tc_emit tc_set_t send_all tc_t tc_commit tc_out set_committed flat_map decided_of app mk_ref r_view r_hash]; rewrite G2; repeat split; auto.
+Qed.
+Lemma check_prepared_dstep x v h : dstep x (check_prepared c wm shut x v h).
+Proof.
+  unfold check_prepared.
+  destruct (match t_prepared (tc_t x) with Some pv => pv =? v | None => false end); [left; apply dneutral_refl|].
+  destruct (is_preprepared (tc_t x) v h); [|left; apply dneutral_refl].
+  destruct (isQ_ids _ _); [|left; apply dneutral_refl].
+  eapply dneutral_then_dstep; [|apply check_committed_dstep]. unfold send_all. dn_tac.
+Qed.
+Lemma process_pp_dstep x r s b : dstep x (process_pp c wm shut x r s b).
+Proof.
+  unfold process_pp. destruct (negb _); [left; apply dneutral_refl|].
+  eapply dneutral_then_dstep; [|apply check_prepared_dstep]. unfold send_all. dn_tac.
+Qed.
+Lemma on_elected_dneutral x v vs : dneutral x (on_elected c wm shut x v vs).
+Proof.
+  unfold on_elected, init_view. cbn [tc_set_t tc_v]. destruct (N.ltb _ _); [split; reflexivity|].
+  destruct (latest_block vs) as [[b h]|]; [|destruct (negb _)]; unfold send_all; dn_tac.
+Qed.
+Lemma check_elected_dneutral x v : dneutral x (check_elected c wm shut x v).
+Proof.
+  unfold check_elected. destruct (N.leb _ _); [apply dneutral_refl|]. destruct (votes_of _ _) eqn:E0; [apply dneutral_refl|]. rewrite <- E0.
+  destruct (isQ_ids _ _); [apply on_elected_dneutral|apply dneutral_refl].
+Qed.
+Theorem thandle_dstep x m : dstep x (thandle c wm shut x m).
+Proof.
+  destruct m; cbn [thandle].
+  - unfold handle_pp. repeat (match goal with |- dstep _ (if ?b then _ else _) => destruct b; [left; apply dneutral_refl|] end). apply process_pp_dstep.
+  - unfold handle_p. repeat (match goal with |- dstep _ (if ?b then _ else _) => destruct b; [left; apply dneutral_refl|] end).
+    eapply dneutral_then_dstep; [|apply check_prepared_dstep]. dn_tac.
+  - unfold handle_c. repeat (match goal with |- dstep _ (if ?b then _ else _) => destruct b; [left; apply dneutral_refl|] end).
+    eapply dneutral_then_dstep; [|apply check_committed_dstep]. dn_tac.
+  - left. unfold handle_vc. repeat (match goal with |- dneutral _ (if ?b then _ else _) => destruct b; [apply dneutral_refl|] end).
+    assert (A : dneutral x (check_elected c wm shut
+      (tc_set_t (store_vc (v_view v) v b (tc_t x))
+         (if has_vc (tc_t x) (v_view v) (s_id (v_snd v)) then x
+          else tc_emit (OStore T_VIEW_CHANGE (t_h (tc_t x)) (v_view v) 0 (s_id (v_snd v))) x)) (v_view v))).
+    { eapply dneutral_trans; [|apply check_elected_dneutral]. dn_tac. }
+    destruct b, (v_proof v); try apply dneutral_refl; try exact A. destruct (commitsTo _ _ _); [exact A|apply dneutral_refl].
+  - unfold handle_nv. repeat (match goal with |- dstep _ (if ?b then _ else _) => destruct b; [left; apply dneutral_refl|] end).
+    assert (K : dstep x (if negb (validate_pp c (tc_t x) pp pps) then x else
+                    match init_view nview (tc_set_t (set_latest nview (tc_t x)) x) with
+                    | None => tc_set_t (set_latest nview (tc_t x)) x
+                    | Some x1 => process_pp c wm shut x1 pp pps b end)).
+    { destruct (negb _); [left; apply dneutral_refl|]. unfold init_view. cbn [tc_set_t tc_v].
+      destruct (N.ltb _ _); [left; split; reflexivity|].
+      eapply dneutral_then_dstep; [|apply process_pp_dstep]. dn_tac. }
+    destruct (latest_vote votes) as [lv|].
+    + destruct (v_proof lv); [|left; apply dneutral_refl].
+      repeat (match goal with |- dstep _ (if ?b then _ else _) => destruct b; [left; apply dneutral_refl|] end). exact K.
+    + repeat (match goal with |- dstep _ (if ?b then _ else _) => destruct b; [left; apply dneutral_refl|] end). exact K.
+Qed.
+Theorem move_dneutral x h v : dneutral x (move_to_next_leader c wm shut x h v).
+Proof.
+  unfold move_to_next_leader, init_view. destruct (negb _); [apply dneutral_refl|].
+  destruct (N.ltb _ _); [apply dneutral_refl|]. destruct (snd _); [dn_tac|].
+  cbn [tc_v tc_emit tc_set_v]. destruct (N.eqb _ (c_me c)); [|dn_tac].
+  eapply dneutral_trans; [|apply check_elected_dneutral]. dn_tac.
+Qed.
+End DStep.
+
+Lemma tstart_commit c wm shut H cm fresh lead : tc_commit (tstart c wm shut H cm fresh lead) = None.
+Proof.
+  unfold tstart, start_term, init_view. cbn [tc_v N.ltb N.compare tc_t new_tstate t_h t_cm].
+  repeat match goal with |- context [if ?b then _ else _] => destruct b end; reflexivity.
+Qed.
